@@ -281,8 +281,13 @@ def gen_rt(rng, tier):
         i = rng.randrange(len(frames))
         k = rng.randint(2, 7)
         frames[i:i + 1] = [dict(frames[i]) for _ in range(k)]
-        for f in frames:
-            f["mark"] = None
+        if rng.random() < 0.5:
+            for f in frames:
+                f["mark"] = None
+        else:
+            # folded entries AND marker lines, as Python >= 3.11 prints a recursion: rendered by real_render
+            # (Spec.real_text spelled in Python; Coq compares the text with the Spec's rendering)
+            case["renderer"] = "real"
     elif r < 0.13 and frames:
         # near-repeats: a run of 4-6 entries that differ in exactly one of file / line / function (the
         # interpreter folds only entries equal in all three), possibly mixed with true repeats
@@ -373,6 +378,34 @@ def plain_render(case):
             lines.append("    " + f["src"])
             if f.get("mark") is not None:
                 lines.append(f["mark"])
+    lines.append(case["type"] + ": " + case["msg"] if case["msg"] else case["type"])
+    return "\n".join(lines)
+
+
+def real_render(case):
+    """Spec.real_text spelled in Python: identical consecutive entries (file, line, function) folded after the
+    third, marker lines under the source lines of the entries that are shown."""
+    lines = ["Traceback (most recent call last):"]
+    last, count = None, 0
+
+    def flush():
+        if count > 3:
+            n = count - 3
+            lines.append("  [Previous line repeated %d more time%s]" % (n, "s" if n > 1 else ""))
+    for f in case["frames"]:
+        key = (f["path"], f["lineno"], f["func"])
+        if key != last:
+            flush()
+            last, count = key, 0
+        count += 1
+        if count > 3:
+            continue
+        lines.append('  File "%s", line %s, in %s' % (f["path"], f["lineno"], f["func"]))
+        if f["src"]:
+            lines.append("    " + f["src"])
+            if f.get("mark") is not None:
+                lines.append(f["mark"])
+    flush()
     lines.append(case["type"] + ": " + case["msg"] if case["msg"] else case["type"])
     return "\n".join(lines)
 
@@ -793,7 +826,7 @@ def _parse_obs(text, as_bytes=False):
 def run_impl(case):
     kind = case["kind"]
     if kind == "rt":
-        text = std_render(case) if case["renderer"] == "std" else plain_render(case)
+        text = {"std": std_render, "plain": real_render, "real": real_render}[case["renderer"]](case)
         parsed, printed = _parse_obs(text, case.get("bytes", False))
         return {"text": text, "parsed": parsed, "printed": printed}
     if kind == "raw":
